@@ -166,8 +166,24 @@ def flatten_polys(x):
     return out
 
 
+def clear_inverse_atoms(ctx, p):
+    """Multiply p by q^e for every inverse atom r = 1/q occurring in p with
+    maximal exponent e (q != 0 is part of the atom's definition, so p = 0 iff
+    the product is 0)."""
+    mult = None
+    for a in sorted(p.atoms()):
+        at = ctx.atoms[a]
+        if at.kind != 'inv':
+            continue
+        e = max((ee for m in p.t for aa, ee in m if aa == a), default=0)
+        if e > 0:
+            f = at.data**e
+            mult = f if mult is None else mult * f
+    return p if mult is None else p * mult
+
+
 def prove_zero(ctx, name, x, rounds=2, max_deg=8, max_inst=6000, key=None,
-               fallback_exact=True):
+               fallback_exact=True, clear_denominators=True):
     """Obligation: every entry of x is zero (normal form, then LRA
     abstraction, then exact z3)."""
     polys = flatten_polys(x)
@@ -180,6 +196,15 @@ def prove_zero(ctx, name, x, rounds=2, max_deg=8, max_inst=6000, key=None,
     if r == 'unsat':
         return ctx.record(name, 'unsat', 'lra-abstraction', key=key,
                           instances=lp.instances)
+    if clear_denominators:
+        cleared = [clear_inverse_atoms(ctx, p) for p in nz]
+        if any(c is not p for c, p in zip(cleared, nz)):
+            lp = LinProver(ctx)
+            r2, dt = lp.prove_zero(cleared, rounds, max_deg + 6, max_inst)
+            if r2 == 'unsat':
+                return ctx.record(name, 'unsat',
+                                  'lra-abstraction(cleared-denominators)',
+                                  key=key, instances=lp.instances)
     if fallback_exact:
         g = z3.And(*[ctx.poly_z3(p) == 0 for p in nz])
         rec = ctx.prove(name, g, backend='z3-nra', key=key)
